@@ -13,7 +13,7 @@ TIERS = {"quick": {"cases": 2400, "wall": 90, "min_nontrivial": 300},
 RULE = ("(a) generator in F2003 mode -> program P: parse03(P) and parse08(P) must both succeed and print the same text "
         "compared case-insensitively outside character literals, and identically unless P references an F2008-only "
         "intrinsic name (erf, gamma, shiftl, shiftr, shifta are spliced in as references in a third of the cases); "
-        "(b) P plus exactly one F2008-only construct Q (one of 14 kinds): parse03(Q) must raise, parse08(Q) must "
+        "(b) P plus exactly one F2008-only construct Q (one of 21 kinds): parse03(Q) must raise, parse08(Q) must "
         "succeed; non-trivial = >=6 statements and >=3 kinds; distinct by SHA-1 of source")
 ASSUMPTIONS = ["the generator's f2003 mode emits no F2008 feature", "the spliced F2008 constructs are F2008-only by the standard"]
 DECIDING_MONITORS = ("pairs_compared", "f2008_only_checked")
@@ -33,6 +33,13 @@ F08_SNIPPETS = {
     "if_error_stop": ("exec", "if (l_vf) error stop"),
     "procedure_colons": ("spec", "interface gen_vf\n procedure :: p1_vf, p2_vf\nend interface gen_vf"),
     "named_block": ("exec", "bb_vf: block\nend block bb_vf"),
+    "component_contiguous": ("spec", "type vf_t\n real, contiguous, pointer :: cc_vf(:)\nend type vf_t"),
+    "component_codimension": ("spec", "type vf_u\n real, allocatable, codimension[:] :: cd_vf\nend type vf_u"),
+    "label_do_concurrent": ("exec", "do 4712 concurrent (i_vf = 1:3)\n4712 continue"),
+    "error_stop_expr": ("exec", "error stop e_vf"),
+    "proc_pointer_init_target": ("spec", "procedure(), pointer :: pp_vf => tgt_vf"),
+    "module_procedure_colons": ("spec", "interface gm_vf\n module procedure :: mp_vf\nend interface"),
+    "do_concurrent_mask": ("exec", "do concurrent (i_vf = 1:3, j_vf = 1:2, i_vf /= j_vf)\nend do"),
 }
 F08_INTRINSICS = ["erf(%s)", "gamma(%s)", "shiftl(%s, 2)", "shiftr(%s, 1)", "shifta(%s, 3)"]
 
